@@ -2,7 +2,7 @@
 C12 — joining fragments at attachment points builds exactly the intended molecule.
 
 Proof:  Molli.Props.C12 over Molli.Model.Join / Molli.Model.Geom: join_atoms_bonds, join_no_extra_bonds,
-        join_charge_mult (+ join_charge_override_counterexample: D24), join_rigid, join_new_bond_ends,
+        join_charge_mult (+ join_charge_override_counterexample: D24), joinGeomOK_repaired(_ordered), join_rigid, join_new_bond_ends,
         join_bond_length, join_bond_direction, join_bond_same_sense, join_fragment_faces, optimize_keeps_bond,
         join_deterministic (+ join_hidden_state_counterexample: D25), join_sources_untouched,
         iterated_join_index, iterated_join_index_sorted (+ iterated_join_unsorted_counterexample: D26), assemble_atoms.
